@@ -201,6 +201,21 @@ CHECKS.update({
     ),
 })
 
+CHECKS.update({
+    "C15": (
+        "exploration",
+        "enumerator",
+        "exhaustive enumeration of every command method x every {omitted, falsy, typical} assignment of its optional arguments (3^k, "
+        "light_command 3^12 = 531441 included) x extreme values x 7 negotiated API versions around the legacy thresholds on a connected "
+        "simulated session; the written frame is decoded by the independent codec and compared as a whole message with a hand-written "
+        "specification (argument -> field, presence flag from the descriptors, unit conversion, legacy encodings)",
+        "The argument-subset space of each command is finite and enumerated completely; whole-message equality makes 'every other "
+        "field at its default' part of every comparison.",
+        BASE,
+        "DESIGN.md §3 C15",
+    ),
+})
+
 NOT_APPLICABLE: dict[str, str] = {}
 
 
